@@ -111,6 +111,35 @@ def conds_hold(T, conds, asg):
     return res
 
 
+def normalize_frames(frames):
+    """`match opt { Some(x) => .., None => .. }` arms are the same tests as `if let Some(x) = opt` / its else branch:
+    arm frames over exactly Some / exactly None become if-frames on `opt.is_some()`."""
+    out = []
+    for fr in frames:
+        if fr.get('k') == 'arm' and not fr.get('guard') and fr.get('scrut') is not None:
+            vs = [str(x).split('::')[-1] for x in fr.get('variants', [])]
+            if vs == ['Some'] or vs == ['None']:
+                out.append({'k': 'if', 'c': {'k': 'iflet', 'scrut': fr['scrut'], 'variants': ['Some'], 'pat': 'Some (_)'}, 'neg': vs == ['None'], 'line': fr.get('line'), 'from_arm': True})
+                continue
+        out.append(fr)
+    return out
+
+
+def normalize_conds(conds):
+    out = []
+    for c in conds:
+        if c[0] == 'm' and len(c) >= 3:
+            vs = [str(x).split('::')[-1] for x in c[2]]
+            if vs == ['Some'] or vs == ['None']:
+                out.append(('c', {'k': 'iflet', 'scrut': c[1], 'variants': ['Some'], 'pat': 'Some (_)'}, vs == ['Some']))
+                continue
+        if c[0] == 'g' and isinstance(c[1], dict):
+            out.append(('g', normalize_frames([c[1]])[0]) + tuple(c[2:]))
+            continue
+        out.append(c)
+    return out
+
+
 def frames_hold(T, frames, asg):
     """Evaluate astq guard frames (if-frames only; others unknown but non-blocking)."""
     res = True
